@@ -47,6 +47,7 @@ def parseIn (idx : Nat) (x : String) : Option In :=
   | ["B", raw] => (ofHex raw).map fun r => .line r none
   | ["E"] => some .empty
   | ["W"] => some .expire
+  | ["V"] => some .expire         -- expiry while records of an uncorrelated session keep flowing (nothing of theirs is emitted)
   | ["M"] => some .empty          -- reassembler-only protocol: `Maintain` without expiry
   | ["G", pid, cred, hs, tag] => do
     let p ← pid.toInt?
